@@ -70,12 +70,7 @@ Definition cinit : db := mk_db [] [].
 
 (** ** Statements *)
 (* SELECT sum FROM refs WHERE name = ? *)
-Fixpoint alookup (k : name) (l : list (name * value)) : option value :=
-  match l with
-  | [] => None
-  | (k', v) :: l' => if beqb k k' then Some v else alookup k l'
-  end.
-Definition sql_select_sum (k : name) (d : db) : option value := alookup k (t_refs d).
+Definition sql_select_sum (k : name) (d : db) : option value := m_get k (t_refs d).
 
 (* INSERT INTO refs (name, sum) VALUES (?, ?) ON CONFLICT (name) DO UPDATE SET sum=excluded.sum *)
 Fixpoint upsert (k : name) (v : value) (l : list (name * value)) : list (name * value) :=
@@ -91,7 +86,7 @@ Definition sql_insert_ref (k : name) (v : option value) (d : db) : option db :=
   match v with
   | None => None
   | Some v' =>
-      match alookup k (t_refs d) with
+      match m_get k (t_refs d) with
       | Some _ => None
       | None => Some (mk_db (t_refs d ++ [(k, v')]) (t_logs d))
       end
